@@ -36,6 +36,7 @@ type c13Scenario struct {
 	ticks     int
 	cache     int  // > 0: the seed is flushed and the page cache replaced by an empty one of this capacity
 	locksOnly bool // scheduling points only at lock operations, header writes and statement boundaries
+	failing   bool // the statement list ends in an error: pages written inside the window count only if the statement logs afterwards
 }
 
 func c13Stmt(w *world, kind string) stmt {
@@ -48,6 +49,9 @@ func c13Stmt(w *world, kind string) stmt {
 		return mkInsert(w.model, "t1", 9, false)
 	case "insert1200":
 		return mkInsert(w.model, "t1", 1200, false)
+	case "update-refused-at-third-row":
+		// t4 holds three rows, the third one long: the UPDATE changes two rows and is refused at the third
+		return stmt{SQL: fmt.Sprintf("UPDATE t4 SET e = '%s'", strings.Repeat("w", 120)), Kind: "update", Table: "t4", MustFail: true, apply: func(*mModel, int) {}}
 	case "update":
 		return mkUpdate(w.model, "t1", seqPred{"<=", w.model.Tables["t1"].Inserted / 2})
 	case "delete":
@@ -67,33 +71,36 @@ func runC13(env *lib.Env, rep *lib.Report) {
 	}
 	bound := 2
 	scenarios := []c13Scenario{
-		{"insert1", "t1x8", []string{"insert1"}, 2, 0, false},
-		{"insert9", "t1x8", []string{"insert9"}, 2, 0, false},
-		{"update", "t1x8", []string{"update"}, 2, 0, false},
-		{"delete", "t1x8", []string{"delete"}, 2, 0, false},
-		{"select", "t1x8", []string{"select"}, 2, 0, false},
-		{"create", "t1x8", []string{"create"}, 2, 0, false},
-		{"insert1;delete;select", "t1x8", []string{"insert1", "delete", "select"}, 1, 0, false},
+		{"insert1", "t1x8", []string{"insert1"}, 2, 0, false, false},
+		{"insert9", "t1x8", []string{"insert9"}, 2, 0, false, false},
+		{"update", "t1x8", []string{"update"}, 2, 0, false, false},
+		{"delete", "t1x8", []string{"delete"}, 2, 0, false, false},
+		{"select", "t1x8", []string{"select"}, 2, 0, false, false},
+		{"create", "t1x8", []string{"create"}, 2, 0, false, false},
+		{"insert1;delete;select", "t1x8", []string{"insert1", "delete", "select"}, 1, 0, false, false},
 		// a page cache too small for the statement's dirty set: the statement must be refused (or fit), never
 		// make room by writing pages in the middle of the statement
-		{"insert9/cache3", "t1x8", []string{"insert9"}, 1, 3, false},
-		{"insert9/cache4", "t1x8", []string{"insert9"}, 1, 4, false},
-		{"insert9/cache5", "t1x8", []string{"insert9"}, 1, 5, false},
-		{"insert9/cache6", "t1x8", []string{"insert9"}, 1, 6, false},
-		{"insert9;insert9/cache8", "t1x8", []string{"insert9", "insert9"}, 1, 8, false},
+		{"insert9/cache3", "t1x8", []string{"insert9"}, 1, 3, false, false},
+		{"insert9/cache4", "t1x8", []string{"insert9"}, 1, 4, false, false},
+		{"insert9/cache5", "t1x8", []string{"insert9"}, 1, 5, false, false},
+		{"insert9/cache6", "t1x8", []string{"insert9"}, 1, 6, false, false},
+		{"insert9;insert9/cache8", "t1x8", []string{"insert9", "insert9"}, 1, 8, false, false},
 		// one statement with more than a thousand row operations: however it is processed internally, the lock is
 		// held from its first change to the end of its log append
-		{"insert1200/lock-points", "t1x8", []string{"insert1200"}, 2, 0, true},
+		{"insert1200/lock-points", "t1x8", []string{"insert1200"}, 2, 0, true, false},
+		// a statement refused half way: whatever it does about the rows it has already changed, it must not let them
+		// reach the data file ahead of log records it writes later
+		{"update-refused-at-third-row", "c14:t4k3", []string{"update-refused-at-third-row"}, 2, 0, false, true},
 	}
 	if env.Thorough() {
 		bound = 3
 		scenarios = append(scenarios,
-			c13Scenario{"insert1;delete;select/2", "t1x8", []string{"insert1", "delete", "select"}, 2, 0, false},
-			c13Scenario{"update;insert9", "t1x8", []string{"update", "insert9"}, 2, 0, false},
-			c13Scenario{"insert1;create;insert1", "t1x8", []string{"insert1", "create", "insert1"}, 2, 0, false},
-			c13Scenario{"insert9;update;delete", "t1x8", []string{"insert9", "update", "delete"}, 3, 0, false},
-			c13Scenario{"interleaved:insert9;select;insert1", "interleaved", []string{"insert9", "select", "insert1"}, 3, 0, false},
-			c13Scenario{"delete;insert9;create", "t1x8", []string{"delete", "insert9", "create"}, 3, 0, false})
+			c13Scenario{"insert1;delete;select/2", "t1x8", []string{"insert1", "delete", "select"}, 2, 0, false, false},
+			c13Scenario{"update;insert9", "t1x8", []string{"update", "insert9"}, 2, 0, false, false},
+			c13Scenario{"insert1;create;insert1", "t1x8", []string{"insert1", "create", "insert1"}, 2, 0, false, false},
+			c13Scenario{"insert9;update;delete", "t1x8", []string{"insert9", "update", "delete"}, 3, 0, false, false},
+			c13Scenario{"interleaved:insert9;select;insert1", "interleaved", []string{"insert9", "select", "insert1"}, 3, 0, false, false},
+			c13Scenario{"delete;insert9;create", "t1x8", []string{"delete", "insert9", "create"}, 3, 0, false, false})
 	}
 	var names []string
 	for _, s := range scenarios {
@@ -109,7 +116,12 @@ func runC13(env *lib.Env, rep *lib.Report) {
 		c.Logf("scenario %s, seed %s (%s)", sc.name, sc.seed, map[bool]string{true: "unflushed", false: "flushed"}[dirtySeed])
 		w := newWorld(c, worldOpt{})
 		defer func() { w.destroy() }()
-		if sw := histSeeds[sc.seed](w); sw == nil || c.Failed() {
+		seedFn := histSeeds[sc.seed]
+		if strings.HasPrefix(sc.seed, "c14:") {
+			name := strings.TrimPrefix(sc.seed, "c14:")
+			seedFn = func(w *world) *world { return c14Seed(w, name) }
+		}
+		if sw := seedFn(w); sw == nil || c.Failed() {
 			if !c.Failed() {
 				c.Fail("seed-failed", "seed")
 			}
@@ -125,6 +137,7 @@ func runC13(env *lib.Env, rep *lib.Report) {
 		}
 		sched := storage.VerifNewSched(func(n int, label string, cost []int) int { return c.ChooseCost(n, label, cost) }, sc.ticks)
 		sched.LocksOnly = sc.locksOnly
+		sched.LazyWindow = sc.failing
 		hasCreate := false
 		var execErr error
 		var failedSQL string
@@ -138,6 +151,12 @@ func runC13(env *lib.Env, rep *lib.Report) {
 				sched.StatementBegin(s.Kind)
 				err := w.exec(s.SQL)
 				sched.StatementEnd()
+				if s.MustFail {
+					if _, isPanic := err.(*panicErr); isPanic || err == nil {
+						execErr, failedSQL = fmt.Errorf("expected a refusal, got %v", err), s.SQL
+					}
+					return
+				}
 				if err != nil {
 					execErr, failedSQL = err, s.SQL
 					return
@@ -191,6 +210,12 @@ func runC13(env *lib.Env, rep *lib.Report) {
 		}
 		if execErr != nil {
 			w.failErr("statement-failed", failedSQL, execErr)
+			return
+		}
+		if sc.failing {
+			// what a half-applied statement leaves behind is C14's subject (known finding D16); here only the
+			// monitors above count
+			c.Tag("refused-statement-scenario")
 			return
 		}
 		// M4: contents now, and after crash + recovery
